@@ -172,6 +172,10 @@ func runC18(c *fw.Ctx) {
 				o.Yields = append(o.Yields, c.S.Draw(3, "yields"))
 				o.Fails = append(o.Fails, c.S.Draw(3, "fail") == 2)
 			}
+			// a search whose task never succeeds never returns, by definition: the cyclic failure pattern
+			// always contains a success (an all-failing pattern, drawn with probability 3^-7..3^-9, made
+			// thorough-tier workers spin forever in the nil-pool comparison below)
+			o.Fails[len(o.Fails)-1] = false
 		} else {
 			for k := 0; k < o.Count; k++ {
 				o.Yields = append(o.Yields, c.S.Draw(4, "yields"))
